@@ -87,6 +87,12 @@ def run(ctx):
                               ("%s_%s_ecb" % (d, alg), (key, good)),
                               ("%s_%s_cbc" % (d, alg), (key, iv, good)), ("%s_%s_cbc" % (d, alg), (key, iv, rng.randbytes(badlen))),
                               ("%s_%s_cbc" % (d, alg), (key, iv, good))]
+    # DES weak / semi-weak key components (E_k = D_k for a weak k: still a legal key)
+    for w in G.WEAK_DES:
+        r8 = rng.randbytes(8)
+        for key in (w, w + r8, r8 + w, w + w + r8, r8 + w + w):
+            data, iv = G.special_bytes(rng, 16), rng.randbytes(8)
+            cases += [("encrypt_tdes_ecb", (key, data)), ("decrypt_tdes_cbc", (key, iv, data)), ("generate_kcv", (key, 3))]
     # structured IVs and data: all-zero / all-FF / repeated blocks / IV equal to the first data block, every block count
     for alg in ("tdes", "aes"):
         bs = 8 if alg == "tdes" else 16
